@@ -1572,7 +1572,23 @@ func (tt *TermTable) Eval(t *Term, env map[string]uint64, memo map[int]uint64) (
 		}
 		r = v & maskB(t.W)
 	case OpUF:
-		return 0, false
+		// a fixed pseudo-random function of the evaluated arguments: an admissible interpretation
+		h := uint64(14695981039346656037)
+		for _, c := range []byte(t.Name) {
+			h = (h ^ uint64(c)) * 1099511628211
+		}
+		for _, a := range t.Args {
+			v, ok := tt.Eval(a, env, memo)
+			if !ok {
+				return 0, false
+			}
+			h = (h ^ v) * 1099511628211
+			h ^= h >> 29
+		}
+		h ^= env["\x00uf-salt"]
+		h *= 0x9E3779B97F4A7C15
+		h ^= h >> 32
+		r = h & maskB(t.W)
 	default:
 		if t.W > 64 {
 			return 0, false
